@@ -6,12 +6,12 @@ import AtreeProofs.Map.ElemsSpec
 namespace Atree
 open Gen
 
-namespace ElemOk
+namespace MElemOk
 variable {T L : Nat} {D : DigestFn L} {cfg : MCfg} {α : Type} {o : ElemsOps α}
   {Inv : Nat → List Nat → α → Prop} {rr : Nat}
 
 theorem keys (S : OpsStruct T L D o Inv rr) {ℓ : Nat} {path : List Nat} {hk : Nat} {e : MElemF α}
-    (h : ElemOk T L D o Inv ℓ path hk e) :
+    (h : MElemOk T L D o Inv ℓ path hk e) :
     ∀ p ∈ e.toList o, KeyOk T L D p.1 ∧ p.1.digs.take (ℓ + 1) = path ++ [hk] := by
   cases e with
   | single x => intro p hp; simp [MElemF.toList] at hp; subst hp; exact ⟨h.1.1, h.2⟩
@@ -19,14 +19,14 @@ theorem keys (S : OpsStruct T L D o Inv rr) {ℓ : Nat} {path : List Nat} {hk : 
   | ext id sz s => exact S.keys h.2.2.2.2.2.1
 
 theorem distinct (S : OpsStruct T L D o Inv rr) {ℓ : Nat} {path : List Nat} {hk : Nat} {e : MElemF α}
-    (h : ElemOk T L D o Inv ℓ path hk e) : KeysDistinct (e.toList o) := by
+    (h : MElemOk T L D o Inv ℓ path hk e) : KeysDistinct (e.toList o) := by
   cases e with
   | single x => simp [MElemF.toList, KeysDistinct]
   | inl g => exact S.distinct h.1
   | ext id sz s => exact S.distinct h.2.2.2.2.2.1
 
 theorem ordered (S : OpsStruct T L D o Inv rr) {ℓ : Nat} {path : List Nat} {hk : Nat} {e : MElemF α}
-    (h : ElemOk T L D o Inv ℓ path hk e) :
+    (h : MElemOk T L D o Inv ℓ path hk e) :
     ((e.toList o).map (fun p => p.1.digs)).Pairwise (fun a b => a = b ∨ List.Lex (· < ·) a b) := by
   cases e with
   | single x => simp [MElemF.toList]
@@ -34,21 +34,21 @@ theorem ordered (S : OpsStruct T L D o Inv rr) {ℓ : Nat} {path : List Nat} {hk
   | ext id sz s => exact S.ordered h.2.2.2.2.2.1
 
 theorem toList_ne_nil (S : OpsStruct T L D o Inv rr) {ℓ : Nat} {path : List Nat} {hk : Nat} {e : MElemF α}
-    (h : ElemOk T L D o Inv ℓ path hk e) : e.toList o ≠ [] := by
+    (h : MElemOk T L D o Inv ℓ path hk e) : e.toList o ≠ [] := by
   cases e with
   | single x => simp [MElemF.toList]
   | inl g => exact (S.count_pos h.1).mp h.2.1
   | ext id sz s => exact (S.count_pos h.2.2.2.2.2.1).mp h.2.2.2.2.2.2.1
 
 theorem count_pos {ℓ : Nat} {path : List Nat} {hk : Nat} {e : MElemF α}
-    (h : ElemOk T L D o Inv ℓ path hk e) : 1 ≤ e.count o := by
+    (h : MElemOk T L D o Inv ℓ path hk e) : 1 ≤ e.count o := by
   cases e with
   | single x => simp [MElemF.count]
   | inl g => exact h.2.1
   | ext id sz s => exact h.2.2.2.2.2.2.1
 
 theorem size_le (hT : legalThreshold T = true) {ℓ : Nat} {path : List Nat} {hk : Nat} {e : MElemF α}
-    (h : ElemOk T L D o Inv ℓ path hk e) (h0 : ℓ = 0) : e.size o ≤ maxInlineMapElem T := by
+    (h : MElemOk T L D o Inv ℓ path hk e) (h0 : ℓ = 0) : e.size o ≤ maxInlineMapElem T := by
   cases e with
   | single x =>
     obtain ⟨⟨hk, h1, h2, h3⟩, _⟩ := h
@@ -58,7 +58,7 @@ theorem size_le (hT : legalThreshold T = true) {ℓ : Nat} {path : List Nat} {hk
   | ext id sz s => show sz ≤ _; rw [h.2.1]; exact ext_size_le hT
 
 theorem get (S : OpsSpec T L D cfg o Inv rr) (hc : CfgFor cfg T L) {ℓ : Nat} {path : List Nat} {hk : Nat}
-    {e : MElemF α} (hℓ : ℓ + rr + 1 = L) (h : ElemOk T L D o Inv ℓ path hk e) {k : MKey} (hkk : KeyOk T L D k)
+    {e : MElemF α} (hℓ : ℓ + rr + 1 = L) (h : MElemOk T L D o Inv ℓ path hk e) {k : MKey} (hkk : KeyOk T L D k)
     (hp : k.digs.take (ℓ + 1) = path ++ [hk]) :
     (∀ v, (k, v) ∈ e.toList o → e.get o cfg ℓ k = .ok (k, v)) ∧
     ((∀ p ∈ e.toList o, p.1 ≠ k) → e.get o cfg ℓ k = .error .keyNotFound) := by
@@ -96,7 +96,7 @@ theorem inlSet_spec (S : OpsSpec T L D cfg o Inv rr) (hc : CfgFor cfg T L) {ℓ 
     (hℓ : ℓ + rr + 1 = L) {g : α} (hg : Inv (ℓ + 1) (path ++ [hk]) g) {k : MKey}
     (h2 : 2 ≤ (o.toList g).length ∨ (∃ x, o.toList g = [x] ∧ x.1 ≠ k))
     (hkk : KeyOk T L D k) (hp : k.digs.take (ℓ + 1) = path ++ [hk]) {v : Elem} (hv : ValueOkM v) (c : Ctx) :
-    ∃ e' old c', MElemF.inlSet o cfg g ℓ k v c = .ok (e', k, old, c') ∧ ElemOk T L D o Inv ℓ path hk e' ∧
+    ∃ e' old c', MElemF.inlSet o cfg g ℓ k v c = .ok (e', k, old, c') ∧ MElemOk T L D o Inv ℓ path hk e' ∧
       SetEffect (o.toList g) (e'.toList o) k (storedValue cfg k v c) old ∧ c.ctr ≤ c'.ctr ∧
       (∀ id, e'.extId? = some id → id.idx ≤ c'.ctr) := by
   have hlev : ¬ (ℓ + 1 > cfg.L) := by rw [hc.hL]; omega
@@ -135,9 +135,9 @@ theorem inlSet_spec (S : OpsSpec T L D cfg o Inv rr) (hc : CfgFor cfg T L) {ℓ 
 
 theorem set (S : OpsSpec T L D cfg o Inv rr) (hT : legalThreshold T = true) (hc : CfgFor cfg T L)
     {ℓ : Nat} {path : List Nat} {hk : Nat} {e : MElemF α} (hℓ : ℓ + rr + 1 = L)
-    (h : ElemOk T L D o Inv ℓ path hk e) {k : MKey} (hkk : KeyOk T L D k)
+    (h : MElemOk T L D o Inv ℓ path hk e) {k : MKey} (hkk : KeyOk T L D k)
     (hp : k.digs.take (ℓ + 1) = path ++ [hk]) {v : Elem} (hv : ValueOkM v) (c : Ctx) :
-    ∃ e' old c', e.set o cfg ℓ k v c = .ok (e', k, old, c') ∧ ElemOk T L D o Inv ℓ path hk e' ∧
+    ∃ e' old c', e.set o cfg ℓ k v c = .ok (e', k, old, c') ∧ MElemOk T L D o Inv ℓ path hk e' ∧
       SetEffect (e.toList o) (e'.toList o) k (storedValue cfg k v c) old ∧ c.ctr ≤ c'.ctr ∧
       (∀ id, e'.extId? = some id → e.extId? = some id ∨ id.idx ≤ c'.ctr) := by
   have hlev : ¬ (ℓ + 1 > cfg.L) := by rw [hc.hL]; omega
@@ -184,13 +184,13 @@ theorem set (S : OpsSpec T L D cfg o Inv rr) (hT : legalThreshold T = true) (hc 
 
 theorem remove (S : OpsSpec T L D cfg o Inv rr) (hc : CfgFor cfg T L)
     {ℓ : Nat} {path : List Nat} {hk : Nat} {e : MElemF α} (hℓ : ℓ + rr + 1 = L)
-    (h : ElemOk T L D o Inv ℓ path hk e) {k : MKey} (hkk : KeyOk T L D k)
+    (h : MElemOk T L D o Inv ℓ path hk e) {k : MKey} (hkk : KeyOk T L D k)
     (hp : k.digs.take (ℓ + 1) = path ++ [hk]) (c : Ctx) :
     ((∀ p ∈ e.toList o, p.1 ≠ k) → e.remove o cfg ℓ k c = .error .keyNotFound) ∧
     (∀ v, (k, v) ∈ e.toList o → ∃ r c', e.remove o cfg ℓ k c = .ok (k, v, r, c') ∧ c'.ctr = c.ctr ∧
       match r with
       | none => e.toList o = [(k, v)]
-      | some e' => ElemOk T L D o Inv ℓ path hk e' ∧ RemEffect (e.toList o) (e'.toList o) k v ∧
+      | some e' => MElemOk T L D o Inv ℓ path hk e' ∧ RemEffect (e.toList o) (e'.toList o) k v ∧
           (∀ id, e'.extId? = some id → e.extId? = some id) ∧ (1 ≤ ℓ → e'.size o ≤ e.size o)) := by
   have hlev : ¬ (ℓ + 1 > cfg.L) := by rw [hc.hL]; omega
   cases e with
@@ -261,5 +261,5 @@ theorem remove (S : OpsSpec T L D cfg o Inv rr) (hc : CfgFor cfg T L)
         · intro id' hid'; exact hid'
         · intro _; simp only [MElemF.size]; omega
 
-end ElemOk
+end MElemOk
 end Atree
